@@ -6,7 +6,7 @@ VERIF = os.path.dirname(os.path.dirname(os.path.abspath(__file__)))
 
 TRUSTED_BASE = [
     'T1 ISA specifications spec/isa_*.rs (step/run/encodable/encoded_len), hand-written from the vendor manuals the source links to; word-granular memory with non-wrapping byte addresses',
-    'T2 extraction rules R1-R13 of engine/extract.py (R3 derive(Structural), R4 static dispatch of `impl Trait for Backend`, R5 call-site specialisation of fn-pointer parameters, R6/R12/R13 desugaring of slice iterator chains (.enumerate/.take/.skip/.rev/.any) into index loops, R11 assumed derived clone)',
+    'T2 extraction rules R1-R14 of engine/extract.py (R3 derive(Structural), R4 static dispatch of `impl Trait for Backend`, R5 call-site specialisation of fn-pointer parameters, R6/R12/R13 desugaring of slice iterator chains (.enumerate/.take/.skip/.rev/.any/.position) into index loops, R11 assumed derived clone)',
     'T3 impl Print/Display for Code/Register/Immediate: the printed text is assumed to denote the Code value',
     'T4 assembler, linker, libc, OS process conventions',
     'Verus 0.2026.09.13 + bundled Z3; rustc 1.98.1 front end',
